@@ -632,6 +632,56 @@ def run(ctx):
     ctx.exhaustive[R] = True
 
     # ------------------------------------------------------------------
+    R = "C04.alignment_validate_version"
+    ctx.rule(R, "the alignment datatypes validate a decoded CIGAR against "
+             "their own version: in alignment_gfa1 / alignment_list_gfa1 / "
+             "alignment_gfa2, every path of validate_decoded and encode that "
+             "takes a CIGAR calls its validate with the version of the "
+             "datatype (given explicitly, or being the callee's default) -- "
+             "the GFA1-only operations = X S H N are then refused in GFA2 "
+             "and accepted in GFA1", floor=5)
+    f_cval = ctx.anchor("CIGAR.validate", CG.find_method("validate"))
+    for dt, ver in (("alignment_gfa1", "gfa1"), ("alignment_gfa2", "gfa2"),
+                    ("alignment_list_gfa1", "gfa1")):
+        m = ctx.anchor("FIELD_MODULE[%s]" % dt, fm.get(dt))
+        for fname in ("validate_decoded", "encode"):
+            f = codec.module_func(repo, m, fname)
+            if f is None:
+                continue
+            ctx.instance(R)
+            seen = []
+
+            class VVH(LineHooks):
+                def method(self, ev, base, name, args, kwargs, node):
+                    if isinstance(base, Abs) and base.cls is CG and \
+                            name == "validate":
+                        names = f_cval.params[1:]
+                        bound = dict(zip(names, args))
+                        bound.update(kwargs)
+                        seen.append(bound.get(
+                            "version", callee_default(f_cval, "version")))
+                        return None
+                    return super().method(ev, base, name, args, kwargs, node)
+
+                def construct(self, ev, cls, args, kwargs):
+                    if cls is AL and args and isinstance(args[0], Abs):
+                        return args[0]      # Alignment(x) of a CIGAR is x
+                    return super().construct(ev, cls, args, kwargs)
+
+                def to_str(self, ev, v):
+                    return "5M"
+            cg = Abs(CG, label="cigar")
+            arg = [cg] if dt.startswith("alignment_list") else cg
+            out = eval_function(repo, f, [arg], hooks=VVH(repo))
+            ok = out[0] == "return" and seen and all(v == ver for v in seen)
+            ctx.oblige(ok)
+            if not ok:
+                ctx.violation(R, f.short, "datatype=%s" % dt,
+                              "outcome %r; the CIGAR is validated as %r, the "
+                              "datatype is %s" % (out[0:2], seen, ver))
+    ctx.exhaustive[R] = True
+
+    # ------------------------------------------------------------------
     rule_custom_record_tag_scan(ctx, "C04.custom_record_tag_scan")
     from .c13 import rule_segment_tag_scan
     rule_segment_tag_scan(ctx, "C04.segment_tag_scan")
